@@ -61,7 +61,14 @@ pub struct ROut {
 #[derive(Clone, Copy, Debug, PartialEq, Eq)]
 pub enum RPanic {
     SpecifyTwice,
+    SpecifyForeign,
     Depth,
+    /// lattice programs: a cycle of functions without recovery is reachable
+    Cycle,
+    /// lattice programs: fixpoint iteration cannot converge
+    Diverge,
+    /// lattice programs: the statement allows a panic or a value (mixed cycles); must terminate
+    Either,
 }
 
 #[derive(Clone, Debug, Default)]
@@ -250,6 +257,22 @@ impl<'a> Eval<'a> {
                         let v = sv(*val, f.acc) % VMOD;
                         if self.body_ran.get(&e.id).copied().unwrap_or(false) {
                             // the computed value wins this revision
+                        } else if self.assigned.contains_key(&e.id) {
+                            return Err(RPanic::SpecifyTwice);
+                        } else {
+                            self.assigned.insert(e.id, v);
+                        }
+                    }
+                }
+                Op::SpecifyAny { h, val } => {
+                    if !f.ents.is_empty() {
+                        let i = *h as usize % f.ents.len();
+                        let e = f.ents[i];
+                        let v = sv(*val, f.acc) % VMOD;
+                        if !f.mine.contains(&i) {
+                            return Err(RPanic::SpecifyForeign);
+                        }
+                        if self.body_ran.get(&e.id).copied().unwrap_or(false) {
                         } else if self.assigned.contains_key(&e.id) {
                             return Err(RPanic::SpecifyTwice);
                         } else {
